@@ -89,6 +89,119 @@ def _work(payload):
     return len(gids), trans, fails
 
 
+# ------------------------------------------------------------------------------ operation sequences on one Graph object
+
+def graph_ops(n):
+    ops = [("compress",), ("clear",), ("copy",)]
+    ops += [("lc", v) for v in range(n)]
+    for a in range(n):
+        for b in range(a + 1, n):
+            ops += [("add", a, b), ("remove", a, b), ("swap", a, b)]
+    return ops
+
+
+def model_apply(n, masks, op):
+    masks = list(masks)
+    if op[0] == "lc":
+        return lc_masks(n, masks, op[1])
+    if op[0] == "clear":
+        return [0] * n
+    if op[0] in ("add", "remove"):
+        a, b = op[1], op[2]
+        if op[0] == "add":
+            masks[a] |= 1 << b
+            masks[b] |= 1 << a
+        else:
+            masks[a] &= ~(1 << b)
+            masks[b] &= ~(1 << a)
+        return masks
+    if op[0] == "swap":
+        a, b = op[1], op[2]
+        perm = list(range(n))
+        perm[a], perm[b] = b, a
+        out = [0] * n
+        for v in range(n):
+            for w in range(n):
+                if (masks[v] >> w) & 1:
+                    out[perm[v]] |= 1 << perm[w]
+        return out
+    return masks            # compress / copy: pure observers
+
+
+def lib_apply(g, op):
+    if op[0] == "lc":
+        g.local_complementation(op[1])
+    elif op[0] == "clear":
+        g.clear()
+    elif op[0] == "add":
+        g.add_edge(op[1], op[2])
+    elif op[0] == "remove":
+        g.remove_edge(op[1], op[2])
+    elif op[0] == "swap":
+        g.swap(op[1], op[2])
+    elif op[0] == "compress":
+        g.compress()
+    elif op[0] == "copy":
+        return g.copy()
+    return g
+
+
+def observe_mismatch(n, g, masks):
+    from .. import impl
+    want = M.masks_to_graph_id(n, masks)
+    a = np.asarray(g.adjacency_matrix)
+    if not np.array_equal(a, adj_from_masks(n, masks)):
+        return "adjacency matrix %s, reference model says graph %d" % (a.tolist(), want)
+    if g.compress() != want:
+        return "compress() = %d, the graph is %d" % (g.compress(), want)
+    if not (impl.Graph.decompress(n, g.compress()) == g):
+        return "decompress(compress(g)) != g"
+    if sorted(g.get_edges()) != sorted((x, y) for x in range(n) for y in range(x + 1, n) if (masks[x] >> y) & 1):
+        return "get_edges() = %r" % (g.get_edges(),)
+    if int(g.edge_count()) != sum(M.pc(m_) for m_ in masks) // 2:
+        return "edge_count() = %r" % (g.edge_count(),)
+    return None
+
+
+def judge_sequence(n, gid, seq):
+    """Apply the operations to ONE Graph object, observing it (incl. compress()) after every step."""
+    from .. import impl
+    g = impl.Graph.decompress(n, gid)
+    masks = M.graph_id_to_masks(n, gid)
+    bad = observe_mismatch(n, g, masks)
+    if bad:
+        return "initially: " + bad
+    for k, op in enumerate(seq):
+        g = lib_apply(g, op)
+        masks = model_apply(n, masks, op)
+        bad = observe_mismatch(n, g, masks)
+        if bad:
+            return "after %s: %s" % (" ".join("%s%s" % (o[0], ",".join(map(str, o[1:]))) for o in seq[:k + 1]), bad)
+    return None
+
+
+def _seq_work(payload):
+    n, gids, depth = payload
+    import itertools as it
+    ops = graph_ops(n)
+    fails = []
+    cnt = 0
+    steps = 0
+    for gid in gids:
+        for seq in it.product(ops, repeat=depth):
+            cnt += 1
+            steps += depth
+            try:
+                msg = judge_sequence(n, gid, seq)
+            except Exception as ex:      # noqa: BLE001
+                msg = "raised %s: %s" % (type(ex).__name__, ex)
+            if msg:
+                fails.append((gid, [list(o) for o in seq], msg))
+                if len(fails) > 20:
+                    return cnt, steps, fails
+    return cnt, steps, fails
+
+
 # ------------------------------------------------------------------------------ index families
 
 def set_partitions_of_shape(n, shape):
@@ -216,6 +329,16 @@ def check(ctx):
         for cid, m in judge_class_ids(n):
             ctx.violation({"kind": "classid", "n": n, "id": cid}, "classid: n=%d id %d: %s" % (n, cid, m))
         ctx.count("class_ids", M.N_CLASSES[n])
+    for n, depth in ((3, 3), (4, 2 if quick else 3), (5, 1 if quick else 2)):
+        ctx.phase("n=%d: all operation sequences of length %d on one Graph object, from every start graph" % (n, depth))
+        gids = list(range(1 << (n * (n - 1) // 2)))
+        if n == 5:
+            gids = gids[::(8 if quick else 2)]
+        for cnt, steps, fails in core.pmap(_seq_work, [(n, c, depth) for c in core.chunk_list(gids, 64)]):
+            ctx.count("operation_sequences", cnt)
+            ctx.count("transitions", steps)
+            for gid, seq, msg in fails[:5]:
+                ctx.violation({"kind": "sequence", "n": n, "graph_id": gid, "ops": seq}, "sequence: n=%d start graph %d: %s" % (n, gid, msg))
     ctx.phase("index families")
     for name, n, shape, mode in FAMILIES:
         count, msgs = judge_family(name, n, shape, mode)
@@ -240,7 +363,7 @@ def check(ctx):
     ctx.sample({"n": 5, "graph_id": 0b0110011011, "masks": M.graph_id_to_masks(5, 0b0110011011),
                 "lc_at_2": M.masks_to_graph_id(5, lc_masks(5, M.graph_id_to_masks(5, 0b0110011011), 2))})
     ctx.exhaustive = True
-    ctx.count("evaluations", ctx.counters.get("graph_evaluations", 0) + ctx.counters.get("grouping_indices", 0))
+    ctx.count("evaluations", ctx.counters.get("graph_evaluations", 0) + ctx.counters.get("grouping_indices", 0) + ctx.counters.get("operation_sequences", 0))
     ctx.count("distinct_nontrivial", ctx.counters.get("states", 0))
     ctx.rule = "all graphs on 2..6 labelled vertices (each id once) x all vertices; all class ids; all indices of all 15 grouping families"
     ctx.notes["states_meaning"] = "graphs; transitions = local complementations applied (graph, vertex)"
@@ -268,5 +391,9 @@ def replay_classid(body):
     return None
 
 
-REPLAY = {"graph": replay_graph, "family": replay_family, "classid": replay_classid,
+def replay_sequence(body):
+    return judge_sequence(body["n"], body["graph_id"], [tuple(o) for o in body["ops"]])
+
+
+REPLAY = {"sequence": replay_sequence, "graph": replay_graph, "family": replay_family, "classid": replay_classid,
           "pairs": lambda b: ("; ".join(judge_pairs_index()[1][:3]) or None)}
